@@ -311,6 +311,32 @@ def build(rng):
                 rows.append(("%slet qq%d = %s.%s + 1" % (ind, counter[0], sub, ab2), []))
                 fault[0] = ("No candidate", ab2)
                 fault_done = True
+        # alias of a dotted path, then a member reached through the alias: `let al = out.inn` / `al.leaf`; the member must
+        # be looked up in the type of the LAST element of the aliased path (when the outer structure has a field of the same
+        # name, a resolver looking in the wrong type binds silently to that one)
+        c2 = [x for x in main.types.values() if x.kind == "struct" and x is not t and x.fields and not x.params
+              and hasattr(x, "insert_at") and len(visible_types(t, x.name)) == 1 and x.path()[0] != t.path()[0]]
+        if len(c2) >= 2 and rng.random() < 0.45:
+            st, st2 = rng.sample(c2, 2)
+            if len(visible_types(st, st2.name)) == 1:
+                counter[0] += 1
+                k = counter[0]
+                inn, outn, al = "inn%d" % k, "out%d" % k, "al%d" % k
+                pre = "%s%d [+1]  " % (st.body_indent, st.next_off)
+                inserts.append((st.insert_at, [(pre + "%s  %s" % (st2.name, inn), [(len(pre) + 1, (st2.file, st2.path()))])]))
+                st.next_off += 1
+                pre = "%s%d [+1]  " % (ind, t.next_off)
+                rows.append((pre + "%s  %s" % (st.name, outn), [(len(pre) + 1, (st.file, st.path()))]))
+                t.next_off += 1
+                pre = "%slet %s = " % (ind, al)
+                rows.append((pre + "%s.%s" % (outn, inn), [(len(pre) + 1, (t.file, t.path() + [outn])),
+                                                         (len(pre) + 1 + len(outn) + 1, (st.file, st.path() + [inn]))]))
+                shared = [f[0] for f in st2.fields if f[0] in [g[0] for g in st.fields]]
+                leaf = rng.choice(shared) if shared and rng.random() < 0.8 else rng.choice(st2.fields)[0]
+                counter[0] += 1
+                pre = "%slet zz%d = " % (ind, counter[0])
+                rows.append((pre + "%s.%s + 1" % (al, leaf), [(len(pre) + 1, (t.file, t.path() + [al])),
+                                                           (len(pre) + 1 + len(al) + 1, (st2.file, st2.path() + [leaf]))]))
         # injected faults that need this struct
         if want_fault and not fault_done and rng.random() < 0.6:
             fk = rng.random()
